@@ -208,6 +208,10 @@ private:
     ) {
         using namespace decoders;
 
+#ifdef BOOST_MQTT5_VERIF
+        BOOST_MQTT5_VERIF_ON_PACKET(control_byte, first, last);
+#endif
+
         if (!valid_header(control_byte))
             return complete(client::error::malformed_packet, 0, {}, {});
 
